@@ -179,10 +179,16 @@ def readFragment : Nat → P → Option Err × P
         if tok == kw_on then
           let line := p.line
           let col := p.col
+          -- the name, when the condition is a named type (read again by `readType`; the model is pure)
+          let peek := (readToken cm (skipSp cm p).2).1.1
           (match readType cm p.vfuel p with
            | ((_, some e), p) => (some e, p)
            | ((some .ref, none), p) => (some (p.perrAt line col), p)
-           | ((_, none), p) => readInline n p)
+           | ((some .list, none), p) => if cm.condStrict then (some (p.perrAt line col), p) else readInline n p
+           | ((some .nonNull, none), p) => if cm.condStrict then (some (p.perrAt line col), p) else readInline n p
+           | ((some .known, none), p) =>
+             if cm.condStrict && !cm.composite peek then (some (p.perrAt line col), p) else readInline n p
+           | ((none, none), p) => readInline n p)
         else if tok.isEmpty then readInline n p
         else readFragRef cm tok p
 end
